@@ -74,6 +74,7 @@ def run(ck, fb):
     r07g(ck, fb)
     r07j(ck, fb)
     r07k(ck, fb)
+    r07m(ck, fb)
     ck.borrow('rules.c09', {'R09c': 'R07i', 'R09p': 'R07l'}, 'the replicated publish is a no-op only when the node already holds that content as APPLIED content: a follower that holds it as temporary value must record it like the leader does')
     ck.borrow('rules.c01', {'R01n': 'R07h'}, 'the start-up replay path must decide a request as the live apply path did: an index that only load_completed builds is empty during the replay')
 
@@ -320,3 +321,81 @@ def r07k(ck, fb, R='R07k'):
                        '%s replaces the entry of an existing server without removing its previous unique key from server_key_to_id_map: the live index keeps '
                        'a key that a rebuilt index (start-up replay, snapshot load) does not have' % b.name.split('::')[-1], 'old key removed')
     ck.floor(R, 'replacements of an existing server_map entry', n, 1)
+
+
+RANDOM = re.compile(r'(^|::|<)rand::|(^|::)bcrypt::(hash|hash_with_result|hash_with_salt)|Uuid::new_v4|getrandom|thread_rng|(^|::)fastrand::|::random$|RandomState::new')
+CLOCK = re.compile(r'SystemTime::now|Instant::now|datetime_utils::now_|chrono::.*::now$|chrono::Local::now|chrono::Utc::now')
+
+
+def _crate_closure(fb, start, depth):
+    """start + its closures + every function of this crate it calls (any file), `depth` calls deep"""
+    out, seen = [], set()
+    kids = {}
+    for x in fb.bodies.values():
+        if x.parent:
+            kids.setdefault(x.parent, []).append(x)
+    stack = [(start, 0)]
+    while stack:
+        x, d = stack.pop()
+        if x.name in seen:
+            continue
+        seen.add(x.name)
+        out.append(x)
+        for c in kids.get(x.name, []):
+            stack.append((c, d))
+        if d >= depth:
+            continue
+        for s0 in x.sites:
+            nm = s0.resolved or s0.callee or ''
+            t = fb.bodies.get(nm)
+            if t is not None and not t.parent and (nm.startswith('rnacos::') or nm.startswith('<rnacos::')):
+                stack.append((t, d + 1))
+    return out
+
+
+def r07m(ck, fb, R='R07m'):
+    ck.rule(R, 'the state after applying an entry is a function of the entry: nothing reachable from the handler of a message the apply paths send '
+               '(config, table / user, namespace, sequence, MCP, cache, persistent-instance actors; helpers up to 3 calls deep) draws from a random '
+               'source (rand, a salted bcrypt hash, uuid v4, a fresh RandomState); clock reads are listed as information, not judged (the cache evaluates '
+               'deadlines, the registry keeps node-local stamps). A value made up at apply time differs on the leader, on every follower and on '
+               'every replay of the same log - e.g. hashing a legacy plaintext password when the user record is applied stores a different '
+               '$2b$10$ hash on each node and after each restart')
+    b = fb.main(RD + 'apply_log_to_state_machine')
+    pairs = sorted(set((s.gargs[0], msg) for (s, msg, v, a) in util.sends(b)))
+    ck.floor(R, 'actor / message pairs the apply path sends', len(pairs), 7)
+    n = 0
+    seen = set()
+    clocks = []
+    for (actor, msg) in pairs:
+        if actor.endswith('RaftIndexManager'):
+            continue
+        for h in fb.impls(r'^actix::Handler$', re.escape(actor) + '$', re.escape(msg) + '$', 'handle'):
+            reg = _crate_closure(fb, h, 4)
+            n += len(reg)
+            for x in reg:
+                ck.analysed(x)
+                for s0 in x.sites:
+                    nm = s0.resolved or s0.callee or ''
+                    root = fb.root_of(x.name)
+                    short = '::'.join(root.split('::')[-2:])
+                    if RANDOM.search(nm):
+                        k = (short, nm.split('::')[-1])
+                        if k in seen:
+                            continue
+                        seen.add(k)
+                        ck.bad(R, 'random-in-apply:%s:%s' % k, s0.where(),
+                               '%s, reachable from the handler of %s (a message the raft apply paths send), calls %s: the state it stores is made up at '
+                               'apply time and differs between the leader, the followers and every replay of the same log' % (root, msg.split('::')[-1], nm))
+                    elif CLOCK.search(nm) and 'datetime_utils' not in x.name:
+                        k = (short, 'Local::now' if 'Local::now' in nm else nm.split('::')[-1])
+                        if k in seen:
+                            continue
+                        seen.add(k)
+                        clocks.append('%s -> %s' % k)
+    ck.floor(R, 'bodies reachable from apply handlers', n, 50)
+    if not any(k[0] for k in seen if False):
+        pass
+    ck.info(R, 'clock reads reachable from apply handlers (listed, not judged: expiry evaluation and node-local stamps): %s' % '; '.join(sorted(clocks)))
+    rnd = [o for o in ck.obligations if o[0] == R and str(o[1]).startswith('random-in-apply')]
+    if not rnd:
+        ck.ok(R, 'apply-handlers-draw-no-random-values', '', '%d bodies, no random source' % n)
